@@ -39,14 +39,16 @@ pub fn lit_programs(tier: &str) -> (Vec<Program>, String) {
         v.extend(fam::lit(2, 2, 2, 4, false, false));
         v.extend(fam::lit(1, 3, 1, 3, false, false));
         v.extend(fam::lit(2, 3, 1, 3, false, false));
-        level = "LIT: 2 threads, <=3 events on 1 location, <=4 events on 2 locations; 3 threads x 1 event on 1-2 locations (reduced orderings) + sentinels".to_string();
+        v.extend(fam::lit_spawn_stagger(false));
+        level = "LIT: staggered spawns (main accesses/fences between two spawns); 2 threads, <=3 events on 1 location, <=4 events on 2 locations; 3 threads x 1 event on 1-2 locations (reduced orderings) + sentinels".to_string();
     } else {
         v.extend(fam::lit(1, 2, 3, 4, true, true));
         v.extend(fam::lit(2, 2, 2, 4, true, true));
         v.extend(fam::lit(1, 3, 1, 3, true, true));
         v.extend(fam::lit(2, 3, 2, 4, false, false));
         v.extend(fam::lit(1, 2, 3, 5, false, false));
-        level = "LIT: 2 threads <=4 events (all orderings, CAS), <=5 events on one location (reduced orderings), 3 threads <=4 events (reduced orderings) + sentinels".to_string();
+        v.extend(fam::lit_spawn_stagger(true));
+        level = "LIT: staggered spawns; 2 threads <=4 events (all orderings, CAS), <=5 events on one location (reduced orderings), 3 threads <=4 events (reduced orderings) + sentinels".to_string();
     }
     v.extend(fam::lit_sentinels());
     (v, level)
